@@ -17,7 +17,9 @@ from vlib.workload import case_rng, clear_typelib_caches, per_shard, quiet
 ID = "C10"
 LEVEL = "exploration"
 RULE = ("signatures over the five parameter kinds in legal order: all 32 kind-presence combinations x 1-2 parameters per present "
-        "named kind (<=5 parameters in quick, more in thorough), pairwise-distinguishable annotations (int/Decimal/float/Fraction/str), "
+        "named kind (<=5 parameters in quick, more in thorough), pairwise-distinguishable annotations (int/Decimal/float/Fraction/str; in half the "
+        "cases also composite ones: list/dict/tuple/set/Optional/Union/a dataclass, explicitly quoted annotations), callee modules with and "
+        "without postponed evaluation of annotations (PEP 563), "
         "optional defaults and unannotated parameters; every call shape inspect.Signature.bind accepts (each positional-or-keyword "
         "parameter passed either way, 0-2 extra varargs, 0-2 extra kwargs, defaults omitted) plus rejected shapes; as plain functions, "
         "bound methods, static/class methods, callable instances and classes, through bind() and wrap(); one evaluation = one call whose "
@@ -29,15 +31,30 @@ ASSUMPTIONS = [
 EXHAUSTIVE = {"quick": True, "thorough": True}
 PLAN = {"quick": dict(max_per_kind=1, variants=("function", "method", "instance"), shapes_cap=60, extra_sigs=300),
         "thorough": dict(max_per_kind=2, variants=("function", "method", "static", "classmethod", "instance", "class"), shapes_cap=400, extra_sigs=6000)}
-FLOORS = {"quick": {"calls_compared": 20000, "rows_hit": 32, "binder_classes_hit": 14, "rejected_shapes_checked": 2500, "wrap_metadata_checked": 300},
-          "thorough": {"calls_compared": 600000, "rows_hit": 32, "binder_classes_hit": 15, "rejected_shapes_checked": 60000, "wrap_metadata_checked": 5000}}
+FLOORS = {"quick": {"calls_compared": 20000, "rows_hit": 32, "binder_classes_hit": 14, "rejected_shapes_checked": 2500, "wrap_metadata_checked": 300,
+                    "postponed_annotation_modules": 100, "calls_with_composite_annotations": 3000},
+          "thorough": {"calls_compared": 600000, "rows_hit": 32, "binder_classes_hit": 15, "rejected_shapes_checked": 60000, "wrap_metadata_checked": 5000,
+                       "postponed_annotation_modules": 1500, "calls_with_composite_annotations": 100000}}
 
 ANNS = ["int", "decimal.Decimal", "float", "fractions.Fraction", "str"]
+# composite annotations (each distinguishable from the others by the class it produces) with sample inputs
+COMPOSITE = {
+    "list[int]": [["1", "2"], "[3, 4]", ("5",)],
+    "typing.Optional[decimal.Decimal]": ["1.5", None, 2],
+    "dict[str, float]": [{"a": "1"}, '{"b": 2}', [("c", "3")]],
+    "tuple[int, ...]": [["1", "2"], "[3]", ()],
+    "Pt": [{"x": "1"}, '{"x": 2}', [("x", "3")]],
+    "typing.Union[int, str]": ["1", "x", 2.0],
+    "set[fractions.Fraction]": [["1/2", "3"], "[1]"],
+    "'decimal.Decimal'": ["1", 2],            # an explicitly quoted annotation
+    "'list[Pt]'": [[{"x": "1"}], '[{"x": 2}]'],
+}
+PRELUDE = "import dataclasses, typing, decimal, fractions\n@dataclasses.dataclass\nclass Pt:\n    x: int\n"
 NS = {"decimal": decimal, "fractions": fractions}
 _N = [0]
 
 
-def make_signature(rng, present, max_per_kind, force_counts=None):
+def make_signature(rng, present, max_per_kind, force_counts=None, composite=False):
     """present: (pos_only, pos_or_kw, var_pos, kw_only, var_kw) booleans. Returns list of (name, kind, annotation|None, default|None)."""
     params = []
     anns = list(ANNS)
@@ -46,6 +63,8 @@ def make_signature(rng, present, max_per_kind, force_counts=None):
 
     def ann():
         nonlocal k
+        if composite and rng.random() < 0.4:
+            return rng.choice(list(COMPOSITE))
         a = anns[k % len(anns)]
         k += 1
         return a if rng.random() < 0.85 else None
@@ -110,7 +129,14 @@ def call_shapes(rng, params, cap):
     ko = [p for p in params if p[1] == "ko"]
     has_va = any(p[1] == "va" for p in params)
     has_vk = any(p[1] == "vk" for p in params)
-    val = lambda n: f"{(abs(hash(n)) % 7) + 1}"  # noqa: E731  numeric text, distinct per name
+    ann_of = {p[0]: p[2] for p in params}
+
+    def val(n, j=0):
+        a = ann_of.get(n)
+        if a in COMPOSITE:
+            pool = COMPOSITE[a]
+            return pool[(abs(hash(n)) + j) % len(pool)]
+        return f"{(abs(hash(n)) % 7) + 1}"  # numeric text, distinct per name
     shapes = []
     # how many pos-or-kw are passed positionally (prefix), the rest by keyword
     for npos in range(len(pk) + 1):
@@ -123,10 +149,10 @@ def call_shapes(rng, params, cap):
                     if len(args) < len(po) and (npos or nva):
                         continue  # cannot skip a defaulted positional-only and still pass later positionals
                     args += [val(p[0]) for p in pk[:npos]]
-                    args += [f"{5 + j}" for j in range(nva)]
+                    args += [val("rest", j) if ann_of.get("rest") in COMPOSITE else f"{5 + j}" for j in range(nva)]
                     kwargs = {p[0]: val(p[0]) for p in pk[npos:] if not (omit_defaults and p[3] is not None)}
                     kwargs.update({p[0]: val(p[0]) for p in ko if not (omit_defaults and p[3] is not None)})
-                    kwargs.update({f"x{j}": f"{3 + j}" for j in range(nvk)})
+                    kwargs.update({f"x{j}": val("extra", j) if ann_of.get("extra") in COMPOSITE else f"{3 + j}" for j in range(nvk)})
                     shapes.append((tuple(args), kwargs))
     # rejected shapes
     base_args, base_kwargs = shapes[0] if shapes else ((), {})
@@ -144,12 +170,21 @@ def call_shapes(rng, params, cap):
     return shapes
 
 
-def reference(sig, params, args, kwargs):
+def reference(sig, params, args, kwargs, ns=None):
     """('ok', expected received mapping) | ('typeerror',)"""
     try:
         ba = sig.bind(*args, **kwargs)
     except TypeError:
         return ("typeerror",)
+    try:
+        return _reference(sig, params, ba, ns)
+    except TypeError:
+        return ("typeerror",)
+    except Exception as e:  # noqa: BLE001  (a sample the annotation's own unmarshaller rejects)
+        return ("raised", type(e).__name__)
+
+
+def _reference(sig, params, ba, ns):
     ann = {p[0]: p[2] for p in params}
     kind = {p[0]: p[1] for p in params}
     out = {}
@@ -159,7 +194,11 @@ def reference(sig, params, args, kwargs):
             continue
         v = ba.arguments[name]
         a = ann[name]
-        conv = (lambda x: x) if a is None else typelib.unmarshaller(eval(a, NS | {"__builtins__": __builtins__}))
+        if a is not None:
+            t = eval(a, (ns or NS) | {"__builtins__": __builtins__})
+            if isinstance(t, str):  # an explicitly quoted annotation: means its evaluation in the callee's module
+                t = eval(t, (ns or NS) | {"__builtins__": __builtins__})
+        conv = (lambda x: x) if a is None else typelib.unmarshaller(t)
         if kind[name] == "va":
             out[name] = tuple(conv(e) for e in v)
         elif kind[name] == "vk":
@@ -184,13 +223,13 @@ def canaries(sh):
     sh.canary("unconverted-visible", canon({"a": "1"}, strict=True) != canon({"a": 1}, strict=True))
 
 
-def build_variants(src, params, variants, modname):
+def build_variants(src, params, variants, modname, future=False):
     """Compile the recording callee in several guises. Returns {variant: (callable to bind, signature params for reference)}."""
     mod = types.ModuleType(modname)
     mod.__dict__.update(NS)
     sys.modules[modname] = mod
     out = {}
-    code = src + "\n"
+    code = ("from __future__ import annotations\n" if future else "") + PRELUDE + src + "\n"
     code += "class Holder:\n"
     code += "\n".join("    " + l for l in render(params, "meth", first="self").splitlines()) + "\n"
     code += "    @staticmethod\n" + "\n".join("    " + l for l in render(params, "smeth").splitlines()) + "\n"
@@ -224,16 +263,20 @@ def run_shard(sh):
     def case(i):
         idx, present = mine[i]
         rng = case_rng(sh, idx)
+        composite = rng.random() < 0.5
+        future = rng.random() < 0.4
+        if future:
+            sh.count("postponed_annotation_modules")
         if not any(present):
             params = []
         else:
-            params = make_signature(rng, present, plan["max_per_kind"])
+            params = make_signature(rng, present, plan["max_per_kind"], composite=composite)
         row = tuple(bool(x) for x in (present[0], present[3], present[2], present[4], present[1]))
         src = render(params, "f")
         _N[0] += 1
         modname = f"vbind_{sh.shard}_{_N[0]}"
         try:
-            variants, mod = build_variants(src, params, plan["variants"], modname)
+            variants, mod = build_variants(src, params, plan["variants"], modname, future=future)
         except SyntaxError as e:
             sh.inconclusive.append(f"generated source does not compile: {e}: {src}")
             return
@@ -257,7 +300,9 @@ def run_shard(sh):
                     if getattr(wrapped, "__wrapped__", None) is not mod.f or str(inspect.signature(wrapped)) != str(sig):
                         sh.violation("wrap-metadata", signature=src.splitlines()[0], attribute="__wrapped__/signature", got=str(inspect.signature(wrapped)))
                 for args, kwargs in call_shapes(rng, params, plan["shapes_cap"]):
-                    want = reference(sig, params, args, kwargs)
+                    want = reference(sig, params, args, kwargs, ns=mod.__dict__)
+                    if any(p[2] in COMPOSITE for p in params):
+                        sh.count("calls_with_composite_annotations")
                     fns = [("bind", bound)] + ([("wrap", wrapped)] if wrapped is not None and vname != "instance" else [])
                     for how, fn in fns:
                         sh.eval((src.splitlines()[0], vname, how, repr(args), repr(sorted(kwargs))))
